@@ -15,16 +15,31 @@ pub mod scen;
 
 // ---------------------------------------------------------------- block_on with a switching waker
 
+/// One waker object per poll (when `fresh_wakers` is drawn): only a wake-up delivered through
+/// the waker of the *latest* poll counts, exactly as the properties say ("through the waker
+/// supplied at that last poll"). A wake-up through an older waker still unparks the thread
+/// (it is the same task), but the thread parks again without polling.
 struct L3Waker {
     thread: shuttle::thread::Thread,
+    slot: Arc<WakeSlot>,
+    generation: u64,
+}
+struct WakeSlot {
+    current: std::sync::atomic::AtomicU64,
     notified: std::sync::atomic::AtomicBool,
+    stale_wakes: std::sync::atomic::AtomicU64,
 }
 impl std::task::Wake for L3Waker {
     fn wake(self: Arc<Self>) {
         self.wake_by_ref()
     }
     fn wake_by_ref(self: &Arc<Self>) {
-        self.notified.store(true, std::sync::atomic::Ordering::SeqCst);
+        use std::sync::atomic::Ordering::SeqCst;
+        if self.generation == self.slot.current.load(SeqCst) {
+            self.slot.notified.store(true, SeqCst);
+        } else {
+            self.slot.stale_wakes.fetch_add(1, SeqCst);
+        }
         if std::thread::panicking() {
             return;
         }
@@ -38,16 +53,29 @@ impl std::task::Wake for L3Waker {
 /// Runs a future on the current simulated thread. The future lives in a quarantine cell: after
 /// it is dropped its memory is poisoned and checked for later writes at the end of the run.
 pub fn block_on<F: std::future::Future>(fut: F) -> F::Output {
+    use std::sync::atomic::Ordering::SeqCst;
     let mut cell = crate::quarantine::QCell::new(fut, "future awaited by a simulated thread");
-    let w = Arc::new(L3Waker { thread: shuttle::thread::current(), notified: std::sync::atomic::AtomicBool::new(false) });
-    let waker = std::task::Waker::from(w.clone());
-    let mut cx = std::task::Context::from_waker(&waker);
+    let slot = Arc::new(WakeSlot { current: std::sync::atomic::AtomicU64::new(0), notified: std::sync::atomic::AtomicBool::new(false), stale_wakes: std::sync::atomic::AtomicU64::new(0) });
+    let thread = shuttle::thread::current();
+    // drawn per await: keep one waker (will_wake fast path) or hand out a new one at every poll
+    let fresh_wakers = {
+        use shuttle::rand::Rng as _;
+        shuttle::rand::thread_rng().gen::<u64>() % 2 == 0
+    };
+    let mut generation = 0u64;
+    let mut waker = std::task::Waker::from(Arc::new(L3Waker { thread: thread.clone(), slot: slot.clone(), generation }));
     loop {
+        let mut cx = std::task::Context::from_waker(&waker);
         if let std::task::Poll::Ready(v) = cell.pin().poll(&mut cx) {
             return v;
         }
-        while !w.notified.swap(false, std::sync::atomic::Ordering::SeqCst) {
+        while !slot.notified.swap(false, SeqCst) {
             shuttle::thread::park();
+        }
+        if fresh_wakers {
+            generation += 1;
+            slot.current.store(generation, SeqCst);
+            waker = std::task::Waker::from(Arc::new(L3Waker { thread: thread.clone(), slot: slot.clone(), generation }));
         }
     }
 }
